@@ -120,6 +120,14 @@ class Prop(PropBase):
                 a2, b2 = pb.utils.next_fast_len(n), pb.utils.prev_fast_len(n)  # warm
                 if (a, b) != (a2, b2):
                     return {"err": "cache-unstable"}
+                # the same integer as a NumPy scalar (array lengths and shapes often arrive as such), cache cold again
+                import numpy as np
+                if n < 2**62 and n % 3 == 0:
+                    pb.utils.next_fast_len.cache_clear()
+                    pb.utils.prev_fast_len.cache_clear()
+                    ni = (np.int64(n), np.uint64(n), np.intp(n))[(n // 3) % 3]
+                    if (int(pb.utils.next_fast_len(ni)), int(pb.utils.prev_fast_len(ni))) != (int(a), int(b)):
+                        return {"err": "numpy-integer-argument-differs"}
                 return {"next": int(a), "prev": int(b)}
             except Exception as e:
                 return {"err": err_name(e)}
